@@ -18,6 +18,26 @@ import (
 type Obj struct {
 	Seed  int   `json:"seed"`
 	Trail []int `json:"trail"`
+	// Extra is present exactly when the seed is odd and then equals it (newObj): a field that encoding/json leaves alone
+	// when it is absent from the input, so that an object decoded into a re-used value shows the leftovers of another run
+	Extra *int `json:"extra,omitempty"`
+}
+
+func newObj(seed int) *Obj {
+	o := &Obj{Seed: seed}
+	if seed%2 != 0 {
+		x := seed
+		o.Extra = &x
+	}
+	return o
+}
+
+// objForeign: the object carries an Extra that its own seed does not explain
+func objForeign(o *Obj) bool {
+	if o.Seed%2 != 0 {
+		return o.Extra == nil || *o.Extra != o.Seed
+	}
+	return o.Extra != nil
 }
 
 func init() {
